@@ -1166,7 +1166,17 @@ func mainC13() {
 			if !s.Mine(idx) {
 				return
 			}
+			t0 := time.Now()
 			o := runViaPool(pl, c)
+			if tf := os.Getenv("CHUNKS_TIMING"); tf != "" {
+				if d := time.Since(t0); d > 100*time.Millisecond {
+					if f, err := os.OpenFile(fmt.Sprintf("%s-%d.log", tf, s.Index), os.O_APPEND|os.O_CREATE|os.O_WRONLY, 0o644); err == nil {
+						fk, _ := o.failure(c.Kind)
+						fmt.Fprintf(f, "%v %s %s %s %s\n", d, c.Kind, c.Ctx, c.streamClass(), fk)
+						f.Close()
+					}
+				}
+			}
 			w.Eval(fmt.Sprint(c.Kind, c.Ctx, c.Lim, c.Frames, c.Flood))
 			if idx%4001 == 0 {
 				w.Sample(c)
